@@ -2120,6 +2120,37 @@ fn check_disk(rep: &mut Report, drv: &mut Driver, p: &Program, keep: &dyn Fn(usi
         );
     }
     let _ = std::fs::remove_dir_all(&root);
+    // `name.roto` next to `name/mod.roto`: two modules of one name — an error, not a silent choice
+    if noise & (1 << 25) != 0 {
+        if let Some(c) = children_of(p, 0).into_iter().find(|c| !children_of(p, *c).is_empty()) {
+            write_tree(p, 0, &root, keep, tags, 0);
+            let name = &p.names[p.mods[c].ident];
+            std::fs::write(root.join(format!("{name}.roto")), "fn zz() -> i64 { 0 }\n").expect("write");
+            let mut names = p.names.clone();
+            let mut toks = vec!["c13".to_string(), "discover".to_string()];
+            listing(&root, &mut names, &mut toks);
+            let want = drv.ask(&toks.join(" "));
+            let twice = want.split_whitespace().filter(|t| t.split(':').next() == Some(&p.mods[c].ident.to_string())).count();
+            let got = match FileTree::read(&root) {
+                Ok(tree) => compile_and_observe(tree, rt, &Ask { calls: vec![], gets: vec![] }, false).base,
+                Err(e) => Out::Err(err_class(&format!("{e}"))),
+            };
+            rep.evaluations += 1;
+            rep.hist("disk_duplicate_module", got.class());
+            // the model's discovery lists the name at least twice (the same name may also occur deeper)
+            if twice < 2 {
+                rep.mismatch(&format!("discovery model does not list `{name}` twice: {want}"), json!({"case": ident, "variant": label}));
+            }
+            if got != Out::Err("declaredTwice".into()) {
+                rep.violation(
+                    &format!("`{name}.roto` and `{name}/mod.roto` both exist: expected the error \"declared twice\", got {}", got.show()),
+                    "discovery:file-and-directory",
+                    json!({"case": ident, "variant": label, "listing": toks.join(" ")}),
+                );
+            }
+            let _ = std::fs::remove_dir_all(&root);
+        }
+    }
 }
 
 fn check_case(rep: &mut Report, drv: &mut Driver, p: &Program, ident: J, tier: &str, index: u64) -> CaseResult {
